@@ -3,12 +3,13 @@
 
    Vocabulary (Model.v / ProofsB.v / ProofsC.v):
    - [ev]: registry events — EPut / EDelete (watch events fed to handleWatchEvents),
-     EReload snap adds rems (a Get response fed to handleChanges; [adds]/[rems] = the order
-     in which the map iteration of calculateChanges made the OnAdd / OnDelete calls),
+     EReload snap calls (a Get response fed to handleChanges; [calls] = the OnAdd / OnDelete
+     calls in the order in which they were made),
      EJoin x order (Registry.Monitor of a new, possibly exclusive, listener on the existing
      watcher; [order] = the order of the replay of getCurrent);
-   - [wf_run s evs]: every oracle is an allowed choice (a permutation of what the code
-     computes) — the theorems hold for EVERY such order;
+   - [wf_run s evs]: every oracle is an allowed choice (for a reload: the adds and removes
+     computed by calculateChanges in any order and interleaving; for a join: the current
+     values in any order) — the theorems hold for EVERY such order;
    - [truth evs]: key -> value as implied by the event history (PUT sets, DELETE removes,
      a reload replaces everything by the snapshot, later duplicates winning);
    - [registered t v]: some key of t carries value v;
@@ -80,10 +81,10 @@ Print Assumptions listeners_always_saw_current_view.
 
 (* No-op events: a reload that finds the registrations unchanged (a pure replay) calls
    nobody. *)
-Theorem unchanged_reload_is_silent : forall s snap adds rems,
-  NoDup (mkeys (rvals s)) -> wf_ev s (EReload snap adds rems) ->
+Theorem unchanged_reload_is_silent : forall s snap calls,
+  NoDup (mkeys (rvals s)) -> wf_ev s (EReload snap calls) ->
   (forall k, mget k (snap_map snap) = mget k (rvals s)) ->
-  emitted (EReload snap adds rems) = [].
+  emitted (EReload snap calls) = [].
 Proof. exact reload_same_is_silent. Qed.
 Print Assumptions unchanged_reload_is_silent.
 
@@ -142,17 +143,20 @@ Print Assumptions exclusive_one_key_per_value.
 
 (* ------------------------------------------------------------------ non-vacuity *)
 (* two initial listeners (one exclusive); keys 1 and 2 share value 10; a reload changes
-   the value of key 1, adds key 3, drops key 4, replays key 2 — calls made in an order
+   the value of key 1, adds key 3, drops key 4, replays key 2 — the remove delivered between
+   the adds, calls made in an order
    different from the model's own; an exclusive listener joins; key 5 takes value 30 over
    from key 3 and is deleted; a never-registered key is deleted. *)
 Definition ex_evs : list ev :=
   [EPut 1 10; EPut 2 10; EPut 4 40;
-   EReload [(1, 20); (3, 30); (2, 10)] [(1, 20); (3, 30)] [4];
+   EReload [(1, 20); (3, 30); (2, 10)] [LAdd 1 20; LDel 4; LAdd 3 30];
    EJoin true [(3, 30); (2, 10); (1, 20)]; EPut 5 30; EDelete 5; EDelete 9].
 
 Example ex_wf : wf_run (init [false; true]) ex_evs.
 Proof.
-  vm_compute. repeat split; try apply Permutation_refl; apply perm_swap.
+  vm_compute. repeat split; try apply Permutation_refl.
+  - apply (Permutation_app_comm [LAdd 1 20; LDel 4] [LAdd 3 30]).
+  - apply perm_swap.
 Qed.
 
 Example ex_views :
